@@ -508,6 +508,9 @@ class ExprMixin:
     def ev_GeneratorExp(self, e, st, exc, expect):
         return self._comprehension(e, st, exc, expect, "list")
 
+    def ev_DictComp(self, e, st, exc, expect):
+        return self._comprehension(e, st, exc, expect, "dict")
+
     def _comprehension(self, e, st, exc, expect, kind):
         if len(e.generators) != 1 or e.generators[0].is_async:
             return self.ev_unsupported(e, st, exc, expect)
@@ -564,10 +567,48 @@ class ExprMixin:
                     raise EngineError("comprehension condition forks (L%d)" % e.lineno)
                 sub, cv = r[0]
                 cond = S.And(cond, S.truthy(cv))
-            r = self.ev(e.elt, sub, sub_exc)
-            if len(r) != 1 or sub_exc:
-                raise EngineError("comprehension body forks or may raise (L%d): %s" % (e.lineno, ast.unparse(e)[:60]))
+            base_len = len(s1.pc)
+            if kind == "dict":
+                rk = self.ev(e.key, sub, sub_exc)
+                if len(rk) != 1:
+                    raise EngineError("comprehension key forks (L%d)" % e.lineno)
+                sub, keyv = rk[0]
+                r = self.ev(e.value, sub, sub_exc)
+            else:
+                r = self.ev(e.elt, sub, sub_exc)
+            if len(r) != 1:
+                raise EngineError("comprehension body forks (L%d): %s" % (e.lineno, ast.unparse(e)[:60]))
+            if sub_exc:
+                # an element computation may raise: one generic exceptional exit of the whole comprehension
+                exc.append((s1.copy(), exc_value(sub_exc[0][1].t, e.lineno, "inside comprehension")))
             sub, val = r[0]
+            # facts learnt while evaluating the body hold for every element: keep them universally quantified
+            learnt = [f for f in sub.pc[base_len:] if not (len(s1.pc) > base_len and any(f is g for g in s1.pc[base_len:]))]
+            learnt = [f for f in learnt if not z3.is_true(f)]
+            if learnt and z3.is_expr(q.t):
+                s1.assume(z3.ForAll([q.t], z3.And(*learnt) if len(learnt) > 1 else learnt[0]))
+            if kind == "dict":
+                if val.s.pyside or keyv.s.pyside:
+                    raise EngineError("dict comprehension of python-side values (L%d)" % e.lineno)
+                so = expect if isinstance(expect, MapS) else MapS(keyv.s, val.s)
+                kk, vv = self.coerce(keyv, so.key), self.coerce(val, so.val)
+                if kk is None or vv is None:
+                    # key/value of an unexpected sort (e.g. through an uncontracted call): an unconstrained dictionary
+                    res.append((s1, self.fresh(so, "dcomp", s1)))
+                    continue
+                keyv, val = kk, vv
+                out = self.fresh(so, "dcomp", None)
+                y = so.key.fresh("y")
+                q2 = q.s.fresh("q2")
+                sub2 = lambda t: z3.substitute(t, (q.t, q2.t))     # noqa
+                s1.assume(z3.ForAll([y.t], z3.Select(so.dom(out), y.t) ==
+                                    z3.Exists([q.t], z3.And(member(q.t), cond.t, y.t == keyv.t))))
+                # the value stored under key(q) is the value of SOME element with that key (the last one wins in Python)
+                s1.assume(z3.ForAll([q.t], z3.Implies(z3.And(member(q.t), cond.t),
+                                                      z3.Exists([q2.t], z3.And(member(q2.t), sub2(cond.t), sub2(keyv.t) == keyv.t,
+                                                                               z3.Select(so.vals(out), keyv.t) == sub2(val.t))))))
+                res.append((s1, out))
+                continue
             if val.s.pyside:
                 raise EngineError("comprehension of python-side values (L%d)" % e.lineno)
             identity = val.t is elemv.t or (z3.is_expr(val.t) and z3.is_expr(elemv.t) and val.t.eq(elemv.t))
